@@ -457,3 +457,19 @@ pub proof fn vx_lemma_select_up<A>(lv: Seq<A>, dig: spec_fn(A) -> int, d: int, b
         if q < e { vx_lemma_pcount_mono(lv, pr, q + 1, e); assert(false); }
     }
 }
+
+/// rank of false + rank of true = position
+pub proof fn vx_lemma_rank_bool(s: Seq<bool>, i: int)
+    requires 0 <= i <= s.len()
+    ensures vx_rank(s, true, i) + vx_rank(s, false, i) == i, vx_rank(s, true, i) <= i
+    decreases i
+{
+    if i == 0 {
+        assert(s.take(0) =~= Seq::<bool>::empty());
+        reveal(Seq::filter);
+    } else {
+        vx_lemma_rank_bool(s, i - 1);
+        vx_lemma_rank_step(s, true, i - 1);
+        vx_lemma_rank_step(s, false, i - 1);
+    }
+}
